@@ -144,6 +144,10 @@ func (p *instancePool) Run(ctx context.Context) error {
 
 	rh, err := p.runAsync(ctx)
 	if err != nil {
+		// Nothing has been started, so there is nothing to wait for.
+		if p.onWaitDone != nil {
+			p.onWaitDone()
+		}
 		return err
 	}
 
